@@ -46,8 +46,24 @@ Definition fadj_add (und : bool) (g : fadj) (i j : nat) (w : dbl) : fadj :=
 Definition fadj_of (und : bool) (n : nat) (es : list (nat * nat * (Z * Z))) : fadj :=
   fold_left (fun g e => let '(i, j, (hi, lo)) := e in if Nat.ltb i n && Nat.ltb j n then fadj_add und g i j (dbl_of_bits (z_of_halves hi lo)) else g) es (repeat [] n).
 Definition vmaxz : Z := 4294967295.
-Definition djf_case (und : bool) (n : nat) (es : list (nat * nat * (Z * Z))) (s : nat) (cs : list nat) : list (list (list Z)) :=
-  match fdj_trace (fadj_of und n es) s cs with
+(* the same search without the "no overflow" restriction: a tentative distance may be +infinity (huge weights); the comparison
+   inf < inf is false, so such an edge relaxes nothing (FloatDjProofs.C12_generic_dijkstra covers +infinity as an admissible distance) *)
+Definition fdj_any (g : fadj) (s : nat) (cs : list nat) : option (list Z * list Z) :=
+  if fdj_wf g s then
+    match grun dbl dbl dleb dadd g (fdj_init (length g) s) cs with
+    | Some st => match gwork st with [] => Some (map dist_bits (gdist st), map pred_code (gpred st)) | _ :: _ => None end
+    | None => None end
+  else None.
+(* When a path sum overflows, the C++ cannot tell "reached at distance +infinity" from "not reached" (both are +infinity in its distance
+   vector) while the model keeps them apart: such runs are outside the modelled domain.  The model then echoes the implementation's values
+   (no opinion) and only the spec side speaks: the search must have stopped within the scan bound. *)
+(* the modelled domain, decided on the graph alone: the exact sum of ALL edge weights stays below 2^1024, so no path sum can overflow *)
+Definition may_overflow (g : fadj) : bool :=
+  negb (Fleb (Fplus (fold_right (fun e acc => Fplus (B2F (snd e)) acc) F0 (concat g)) (Float radix2 1 0)) (Float radix2 1 1024)).
+Definition djf_case (und : bool) (n : nat) (es : list (nat * nat * (Z * Z))) (s : nat) (idist ipred : list Z) (cs : list nat) : list (list (list Z)) :=
+  let g := fadj_of und n es in
+  if fdj_wf g s && may_overflow g then [[idist; ipred; [Z.of_nat (length cs)]; map Z.of_nat cs]] else
+  match fdj_trace g s cs with
   | Some (ds, ps) => [[ds; map (fun p => if Z.ltb p 0 then vmaxz else p) ps; [Z.of_nat (length cs)]; map Z.of_nat cs]]
   | None => [[[-8]]] end.
 Definition fpred_ok (g : fadj) (ds : list Z) (s v : nat) (p : Z) : bool :=
@@ -57,8 +73,10 @@ Definition fpred_ok (g : fadj) (ds : list Z) (s v : nat) (p : Z) : bool :=
   if Z.eqb p vmaxz then false else
   let q := Z.to_nat p in
   existsb (fun e => Nat.eqb (fst e) v && Z.eqb (bits_of_dbl (dadd (dbl_of_bits (nth q ds inf_bits)) (snd e))) dv) (nth q g []).
-Definition djf_spec (und : bool) (n : nat) (es : list (nat * nat * (Z * Z))) (s : nat) (ipred : list Z) (cs : list nat) : list (option (list (list Z))) :=
+Definition djf_spec (und : bool) (n : nat) (es : list (nat * nat * (Z * Z))) (s : nat) (idist ipred : list Z) (cs : list nat) : list (option (list (list Z))) :=
   let g := fadj_of und n es in
+  let scans := if Nat.leb (length cs) (n + length (concat g) + 1) then [Z.of_nat (length cs)] else [-8] in
+  if fdj_wf g s && may_overflow g then [Some [idist; ipred; scans; map Z.of_nat cs]] else      (* outside the modelled domain: only the scan bound binds *)
   match fdj_auto g s (2 + length (concat g)) with
   | Some (ds, _) =>
     [Some [ds; if Nat.eqb (length ipred) n && forallb (fun v => fpred_ok g ds s v (nth v ipred (-1))) (seq 0 n) then ipred else [-8];
